@@ -372,7 +372,11 @@ impl Space for PrintCases {
 
 /// child mode: solve one case with the default print target (stdout) and verbose on
 pub fn child(space_name: &str, id: u64) -> i32 {
-    for tier in ["quick", "thorough"] {
+    // the tier is inherited from the parent through the environment: spaces of the two tiers can share a name
+    // but not a decoding
+    let first = std::env::var("VERIF_TIER").unwrap_or_else(|_| "quick".into());
+    let other = if first == "thorough" { "quick" } else { "thorough" };
+    for tier in [first.as_str(), other] {
         for s in spaces_typed(tier) {
             if s.name() == space_name {
                 let (p, ss) = s.src.case(id);
